@@ -38,6 +38,8 @@ func (tp *ThreadPool) initThreadPool(threadCount, queueSize int, opts ...Option)
 
 func threadWorker(thread *Thread, queue chan *Promise) {
 	for task := range queue {
+		verifEvent("deq", nil, task)
+		verifYield()
 		switch body := task.Body.(type) {
 		case *Generator:
 			executeBytecodePromise(thread, queue, task)
@@ -57,9 +59,13 @@ func executeBytecodePromise(thread *Thread, queue chan *Promise, task *Promise) 
 	switch thread.state {
 	case awaitState:
 		awaitedPromise := (*Promise)(thread.peek().Pointer())
+		verifYield()
 		awaitedPromise.RegisterContinuationUnsafe(task)
+		verifEvent("reg", awaitedPromise, task)
+		verifYield()
 
 		// promise has been locked in the VM
+		verifEvent("unl", awaitedPromise, task)
 		awaitedPromise.m.Unlock()
 	case errorState:
 		err := thread.popGet()
@@ -122,7 +128,10 @@ func (t *ThreadPool) ThreadCount() int {
 }
 
 func (t *ThreadPool) AddTask(promise *Promise) {
+	verifEvent("add", nil, promise)
+	verifYield()
 	t.TaskQueue <- promise
+	verifEvent("enq", nil, promise)
 }
 
 func (t *ThreadPool) Close() {
